@@ -31,7 +31,7 @@ mutual
       | .ok (.arr a) => .tryc (bodyOf a[0]!) (armsOf a[1]!) (bodyOf a[2]!) (bodyOf a[3]!)
       | _ =>
       match j.getObjVal? "match" with
-      | .ok (.arr a) => .mtch (armsOf a[0]!)
+      | .ok (.arr a) => .mtch (armsOf a[0]!) (bodyOf (a[1]?.getD (Json.arr #[])))
       | _ =>
       match j.getObjVal? "clos" with
       | .ok (.arr a) => .clos (bodyOf a[0]!)
